@@ -1179,6 +1179,29 @@ func ruleEntryIterator(r *Run, want *types.Signature) {
 	if describe(callArgs(pre)[0], 0) != describe(callArgs(pipe)[0], 0) || describe(callArgs(pre)[2], 0) != describe(callArgs(pipe)[2], 0) {
 		fail(pipe.Pos(), "prefilter and pipeline see different timestamp / label set")
 	}
+	// every record that was read reaches the prefilter before the next one is read: nothing but the
+	// filters' verdicts removes a record
+	for _, c := range callsIn(fn) {
+		rd, ok := c.(*ssa.Call)
+		if !ok || rd == pre || rd == pipe {
+			continue
+		}
+		rv, isNext := methodCallNamed(rd, "Next")
+		if !isNext || !isResourceType(rv.Type()) {
+			continue
+		}
+		for _, sc := range rd.Block().Succs {
+			if f, ok := edgeFact(rd.Block(), sc); ok {
+				f = normFact(f)
+				if f.Cond == ssa.Value(rd) && !f.Truth {
+					continue // the source is exhausted on this edge
+				}
+			}
+			if blockReaches(sc, rd.Block()) && !mustPassThrough(sc, rd.Block(), pre.Block()) {
+				fail(rd.Pos(), "a record that was read can be skipped before the prefilter saw it: records are removed for a reason other than the filters' verdict")
+			}
+		}
+	}
 	// returns: true only under both keeps; false only from exhaustion/limit
 	for _, ret := range returnsOf(fn) {
 		for _, lv := range phiLeaves(ret.Results[0]) {
@@ -1326,6 +1349,25 @@ func ruleEntryIteratorPaths(r *Run, o *Obligation, fn *ssa.Function, want *types
 						fail(at, "prefilter and pipeline see different timestamp / label set")
 					}
 				}
+			}
+		}
+		// every record that was read is shown to the prefilter before the next one is read: nothing but
+		// the filters' verdicts (and the limit, which ends the iteration) removes a record
+		lastRead, preSince := -1, true
+		for _, ev := range e.State.calls {
+			if ev.Call == ssa.CallInstruction(pre) {
+				preSince = true
+				continue
+			}
+			cc, isCall := ev.Call.(*ssa.Call)
+			if !isCall {
+				continue
+			}
+			if rv, ok := methodCallNamed(cc, "Next"); ok && isResourceType(rv.Type()) && cc.Parent() != nil && cc != pre {
+				if lastRead >= 0 && !preSince {
+					fail(cc.Pos(), "a record that was read is skipped before the prefilter saw it: records are removed for a reason other than the filters' verdict")
+				}
+				lastRead, preSince = ev.Seq, false
 			}
 		}
 		ret, isRet := e.Term.(*ssa.Return)
